@@ -709,10 +709,10 @@ class Parser:
             return self._arrow_params[saved_pos]
 
         is_arrow = False
+        open_parens = [saved_pos]
         try:
             self._advance()  # (
             # Skip to matching )
-            open_parens = [saved_pos]
             while open_parens and not self._is_at_end():
                 if self._check(TokenType.LPAREN):
                     open_parens.append(self.lexer.pos)
@@ -731,7 +731,9 @@ class Parser:
             # Check for =>
             is_arrow = self._arrow_params[saved_pos]
         except Exception:
-            pass
+            # (the scan stops at the same place for every '(' that is still open)
+            for pos in open_parens:
+                self._arrow_params[pos] = False
 
         # Restore state
         self.lexer.pos = saved_pos
